@@ -45,6 +45,17 @@ PROPS = {
                         "hash functions are uninterpreted; the oracle checks each fingerprinter equals the hash of the canonical encoding",
                         "the two packages' default fingerprinters use different hashes (SHAKE256 vs SHA3-256): observation, not an alarm (DESIGN section 7 note 23)"],
     },
+    "C16": {
+        "streams": [{"name": "addr", "quick": 15000, "thorough": 300000, "thorough_seeds": 3}],
+        "oracles": ["addr"],
+        "rule": "one case per distinct operation text: addresses of every kind at nesting depth 0-4 (IPv4, IPv6, zoned and "
+                "IPv4-mapped IPs, ports 0/1/65535/random, SHA256 fingerprints, 32-byte ids, scheme tables of 1-3 names), half of "
+                "the parse cases use mutated text (inserted/deleted/replaced separators, odd port spellings, non-canonical IPs, "
+                "truncation, junk); the IP and port sub-parsers are supplied per case from net/netip and fmt.Sscan",
+        "assumptions": ["net/netip and fmt.Sscan are parameters of the model (Env); the laws EnvOK assumes of them are checked against the "
+                        "standard library by the oracle on every run",
+                        "regexp is modelled by explicit functions for the two expressions the code uses"],
+    },
     "C15": {
         "streams": [{"name": "mux", "quick": 6000, "thorough": 300000, "thorough_seeds": 3}],
         "oracles": ["mux"],
